@@ -212,7 +212,8 @@ class Soap11(XmlDocument):
                         "header properly set.")
 
             content_type = cgi.parse_header(content_type)
-            ctx.in_string = collapse_swa(ctx, content_type, self.ns_soap_env)
+            ctx.in_string = collapse_swa(ctx, content_type, self.ns_soap_env,
+                                                             self.parser_kwargs)
 
         ctx.in_document = _parse_xml_string(ctx.in_string,
                                             XMLParser(**self.parser_kwargs),
